@@ -15,6 +15,9 @@
 (*   end    {c}                     callee about to return                 *)
 (*   ret    {c, r}                  reply received by the caller           *)
 (*   cancel {c}                                                            *)
+(*   term                           the owner's wait for termination (wait *)
+(*                                  group / WaitStop) has just returned    *)
+(*   cfg    {nl, q}                 what SlotSize and QSize / Size report  *)
 (*   quiet  {alive, term, final}    every goroutine is parked: some        *)
 (*                                  goroutine of the executor is left,     *)
 (*                                  owner's wait for termination returned; *)
@@ -82,6 +85,19 @@ TQuiet(e) ==
   /\ e.term => ~e.alive                        \* after termination nothing of the executor is left
   /\ UNCHANGED last
 
+(* The owner's wait for termination (WaitStop / the wait group) returned.   *)
+(* It is logged after the return, so by now the consumers were started and  *)
+(* every lane goroutine has left: no lane is inside a call or has a backlog *)
+(* (pchan: the backlog is dropped), and no callee is entered afterwards.    *)
+TTerm ==
+  /\ started
+  /\ ExitSet({x \in LaneIds : CanExit(x)})
+  /\ \A x \in LaneIds : ~up'[x]
+  /\ UNCHANGED last
+
+(* the getters (SlotSize, QSize / Size) report the configuration, also while calls are in flight *)
+TCfg(e) == e.nl = nl /\ e.q = qsize /\ UNCHANGED allvars
+
 Consume ==
   /\ pos <= Len(TraceLog) /\ pos' = pos + 1
   /\ LET e == TraceLog[pos] IN
@@ -89,7 +105,10 @@ Consume ==
          [] e.ev = "idx"    -> TIdx(e)
          [] e.ev = "start"  -> TStart(e)
          [] e.ev = "quiet"  -> TQuiet(e)
-         [] e.ev = "run"    -> Step([op |-> "run"])
+         [] e.ev = "run"    -> IF started THEN UNCHANGED allvars    \* Run again: no-op (startOnce)
+                               ELSE Step([op |-> "run"])
+         [] e.ev = "term"   -> TTerm
+         [] e.ev = "cfg"    -> TCfg(e)
          [] e.ev = "stopi"  -> IF stopst = "no" THEN Step([by |-> e.by, op |-> "stopi"])
                                ELSE UNCHANGED allvars                      \* Stop again: no-op
          [] e.ev = "stopr"  -> IF stopst = "ing" THEN Step([op |-> "stopr"])
@@ -105,7 +124,7 @@ Consume ==
 (* closes; besides the per-lane inference above only "everything" is tried  *)
 (* (which lanes are closed shows only in `term`, i.e. when all are).        *)
 CloseAll ==
-  /\ TraceLog[pos].ev = "quiet"      \* needed only for lanes leaving, which is seen at `quiet`
+  /\ TraceLog[pos].ev \in {"quiet", "term"}   \* needed only for lanes leaving, which is seen there
   /\ stopst = "ing" /\ \E x \in LaneIds : Used(x) /\ ~qclosed[x]
   /\ qclosed' = [x \in LaneIds |-> qclosed[x] \/ Used(x)]
   /\ last' = [op |-> "closeall"]
